@@ -264,6 +264,8 @@ def _restore_one(tree, rel, b, bq, cq, cur, renames, bnames, stats):
   if bcont == ccont:
     if cname in bnames or cname in renames:
       return False
+    if len(params_of(bnode)) != len(params_of(cnode)):
+      return False      # a pure rename keeps the parameter list
     renames[cname] = bname
     if not bcont:
       for p, fld, i, v in _name_refs(tree, cname):
